@@ -1,4 +1,5 @@
 import CKT.Props.C07Conn
+import CKT.Props.C07Gen
 import CKT.Props.C08ConvW
 /-!
 # C07 — the returned cuts respect the width limit in the *specification* (all kinds of cut)
